@@ -107,6 +107,16 @@ Fixpoint barrier_scan (F : list (list member)) (seen : list obs) (os : list obs)
   end.
 Definition mon_barrier (env : list label) (os : list obs) : bool := barrier_scan (fed_groups env) [] os.
 
+(** * (c) every reply answers a received request (C01): a response id other than null is sent at most as often as
+    requests with that id were fed.  No hypothesis.  Proof: srv/SrvMonReply.v. *)
+Definition idk (m : jmsg) : bytes := fix_id (j_id m).
+Definition label_msgs (l : label) : list jmsg := match l with LFeed f => feed_msgs f | _ => [] end.
+Definition fed_ids (env : list label) : list bytes := map idk (flat_map label_msgs env).
+Definition send_ids (o : obs) : list bytes := match o with OSend _ _ rs => map r_id rs | _ => [] end.
+Definition sent_ids (os : list obs) : list bytes := flat_map send_ids os.
+Definition mon_reply_once (env : list label) (os : list obs) : bool :=
+  forallb (fun i => beq i null_bytes || (count_bytes i (sent_ids os) <=? count_bytes i (fed_ids env))) (sent_ids os).
+
 (** * Proofs *)
 
 (** ** counting *)
